@@ -2404,6 +2404,7 @@ class XonshParser(Parser):
         self._reset(mark)
         return None
 
+    @memoize
     def proc_cmd(self) -> Any | None:
         # proc_cmd: sub_procs | '@(' ~ (bare_genexp | expressions) ')' | '@$(' ~ proc_cmds ')' | env_atom | help_atom | search_path | proc_macro_start ~ ((cmd_group | any_cmd))* | cmd_group | cmd_name
         mark = self._mark()
